@@ -53,11 +53,11 @@ def walk_local(node: ast.AST, include_self: bool = True) -> Iterator[ast.AST]:
 
 
 class Module:
-    def __init__(self, name: str, path: pathlib.Path):
+    def __init__(self, name: str, path: pathlib.Path, tree: Optional[ast.Module] = None):
         self.name = name
         self.path = path
         self.src = path.read_text(encoding="utf-8")
-        self.tree = ast.parse(self.src, filename=str(path))
+        self.tree = tree if tree is not None else ast.parse(self.src, filename=str(path))
         self.parent: Dict[ast.AST, ast.AST] = {}
         for n in ast.walk(self.tree):
             for c in ast.iter_child_nodes(n):
@@ -145,13 +145,27 @@ class Repo:
         if not self.pkg.is_dir():
             raise AnalysisError(f"package directory not found: {self.pkg}")
         self.modules: Dict[str, Module] = {}
+        trees: Dict[str, ast.Module] = {}
+        paths: Dict[str, pathlib.Path] = {}
         for p in sorted(self.pkg.rglob("*.py")):
             rel = p.relative_to(self.pkg).with_suffix("")
             name = ".".join(rel.parts)
             try:
-                self.modules[name] = Module(name, p)
+                trees[name] = ast.parse(p.read_text(encoding="utf-8"), filename=str(p))
             except SyntaxError as e:
                 raise AnalysisError(f"cannot parse {p}: {e}")
+            paths[name] = p
+        # names and helper structure are brought back to the reference vocabulary (meaning-preserving rewrites only)
+        self.normalisation: Dict[str, List[str]] = {}
+        if os.environ.get("VERIF_NO_NORMALIZE") != "1":
+            from .normalize import normalize_repo
+
+            try:
+                self.normalisation = normalize_repo(trees)
+            except RecursionError as e:  # pragma: no cover
+                raise AnalysisError(f"normalisation failed: {e}")
+        for name, t in trees.items():
+            self.modules[name] = Module(name, paths[name], t)
         self._folders: Dict[Tuple[str, Optional[str]], "Folder"] = {}
 
     def mod(self, name: str) -> Module:
